@@ -13,19 +13,20 @@ import (
 
 // Env evaluates specification expressions in a symbolic state.
 type Env struct {
-	x         *Exec
-	fr        *Frame // frame whose names are visible (root frame of the function under proof)
-	cur       *Frame // frame executing (may be an inlined callee)
-	st        *State
-	old       *State // function entry
-	pre       *State // state before the call (site updates / ensures of callees)
-	vars      map[string]Value
-	loop      *loopInfo
-	pos       token.Pos
-	callee    bool // evaluating a callee's contract: identifiers are the callee's parameter names only
-	siteWhere Expr
-	inQuant   int
-	nameSens  []string
+	x            *Exec
+	fr           *Frame // frame whose names are visible (root frame of the function under proof)
+	cur          *Frame // frame executing (may be an inlined callee)
+	st           *State
+	old          *State // function entry
+	pre          *State // state before the call (site updates / ensures of callees)
+	vars         map[string]Value
+	loop         *loopInfo
+	pos          token.Pos
+	callee       bool // evaluating a callee's contract: identifiers are the callee's parameter names only
+	siteWhere    Expr
+	siteOptional bool
+	inQuant      int
+	nameSens     []string
 }
 
 func (x *Exec) newEnv(fr *Frame, st *State) *Env {
@@ -73,6 +74,31 @@ func (e *Env) eval(ex Expr) (Value, error) {
 	case EIdent:
 		return e.ident(ex.Name)
 	case EUnary:
+		if ex.Op == "&" {
+			// address of a field: &x.f
+			sel, ok := ex.X.(ESel)
+			if !ok {
+				return nil, fmt.Errorf("& needs a field selection")
+			}
+			base, err := e.eval(sel.X)
+			if err != nil {
+				return nil, err
+			}
+			p, ok := base.(PtrV)
+			if !ok {
+				return nil, fmt.Errorf("& on a field of a non-pointer")
+			}
+			s := structOf(p.Elem)
+			if s == nil {
+				return nil, fmt.Errorf("& on a field of a non-struct")
+			}
+			for i := 0; i < s.NumFields(); i++ {
+				if s.Field(i).Name() == sel.Name {
+					return e.x.fieldAddr(p, i), nil
+				}
+			}
+			return nil, fmt.Errorf("no field %s", sel.Name)
+		}
 		v, err := e.eval(ex.X)
 		if err != nil {
 			return nil, err
@@ -121,14 +147,27 @@ func (e *Env) quant(q EQuant) (Value, error) {
 		e.x.smt.n++
 		name := fmt.Sprintf("%s!q%d", v, e.x.smt.n)
 		sort := sortName(q.Sorts[i])
+		if sort == "Key" {
+			// the (packed) key sort of the map ranged over by the loop this clause belongs to
+			if e.loop == nil || e.loop.iter == nil {
+				return nil, fmt.Errorf("sort Key is only available in clauses of a map range loop")
+			}
+			mt, ok := e.loop.iter.X.Type().Underlying().(*types.Map)
+			if !ok {
+				return nil, fmt.Errorf("sort Key: ranged value is not a map")
+			}
+			sort = e.x.keySort(mt.Key())
+		}
 		decl = append(decl, "("+name+" "+sort+")")
 		switch sort {
 		case SBool:
 			e.vars[v] = boolV(name)
 		case SStr:
 			e.vars[v] = Scalar{T: name, Sort: SStr, Typ: types.Typ[types.String]}
-		default:
+		case SInt:
 			e.vars[v] = intV(name)
+		default:
+			e.vars[v] = Scalar{T: name, Sort: sort, Typ: types.Typ[types.Int]}
 		}
 	}
 	e.inQuant++
@@ -474,6 +513,9 @@ func (e *Env) index(ex EIndex) (Value, error) {
 	case MapV:
 		mt := b.Typ.Underlying().(*types.Map)
 		k := e.x.keyTerm(mt.Key(), e.coerceKey(iv, mt.Key()))
+		if rk, ok := rawKey(iv, mt.Key()); ok {
+			k = rk
+		}
 		has := And(Not(Eq(b.Ref, NilRef)), Select(e.x.mapDom(e.st, b), k))
 		save := e.x.smt
 		_ = save
@@ -500,6 +542,19 @@ func (e *Env) index(ex EIndex) (Value, error) {
 
 func (e *Env) coerceKey(v Value, kt types.Type) Value {
 	return e.x.retype(v, kt)
+}
+
+// rawKey: a quantified Int used as the (packed) key of a map with a composite key type.
+func rawKey(v Value, kt types.Type) (Term, bool) {
+	s, ok := v.(Scalar)
+	if !ok || !strings.HasPrefix(strings.Trim(s.Sort, "|"), "Key.") {
+		return "", false
+	}
+	switch kt.Underlying().(type) {
+	case *types.Basic, *types.Pointer, *types.Chan:
+		return "", false
+	}
+	return s.T, true
 }
 
 func (e *Env) binary(ex EBinary) (Value, error) {
@@ -538,11 +593,17 @@ func (e *Env) binary(ex EBinary) (Value, error) {
 		case MapV:
 			mt := c.Typ.Underlying().(*types.Map)
 			k := e.x.keyTerm(mt.Key(), e.coerceKey(a, mt.Key()))
+			if rk, ok := rawKey(a, mt.Key()); ok {
+				k = rk
+			}
 			return boolV(And(Not(Eq(c.Ref, NilRef)), Select(e.x.mapDom(e.st, c), k))), nil
 		case ArrayV:
 			k := flatten(a)[0]
 			if c.Key != nil {
 				k = e.x.keyTerm(c.Key, e.coerceKey(a, c.Key))
+				if rk, ok := rawKey(a, c.Key); ok {
+					k = rk
+				}
 			}
 			return boolV(Select(c.T, k)), nil
 		}
@@ -568,7 +629,11 @@ func (e *Env) binary(ex EBinary) (Value, error) {
 			_, _ = an, bn
 			ai, ok1 := a.(IfaceV)
 			bi, ok2 := b.(IfaceV)
-			if ok1 && ok2 {
+			am, okm1 := a.(MapV)
+			bm, okm2 := b.(MapV)
+			if okm1 && okm2 && !types.Identical(am.Typ.Underlying(), bm.Typ.Underlying()) {
+				t = "false" // maps of different types are different objects
+			} else if ok1 && ok2 {
 				t = And(Eq(ai.Tag, bi.Tag), Eq(ai.Data, bi.Data))
 			} else if ok1 != ok2 {
 				// interface vs. concrete: compare the object reference
